@@ -1,6 +1,7 @@
 """Shared black-box layer for C01 (no crash), C02 (no hang), C04 (editor query modes)."""
 import os
 import collections
+import time
 from . import common, blackbox, lexgen, progs
 
 MUT_TOKENS = ["end", "def", "(", ")", "[", "]", "{", "}", "|", ",", ".", "=", "do", "if", "class", "module", "nil", "1", "'s'", "x",
@@ -89,6 +90,19 @@ def sweep(ctx, texts, flagsets, want, layer, line_check=None):
         c = blackbox.classify(rc, so, se, name)
         res = None
         if c == "panic" and "panic" in want:
+            fn, msg, loc = blackbox.panic_site(se)
+            res = ("panic", fn + " | " + msg, loc, se[-1500:])
+        if c in ("hang", "hard-timeout") and "hang" in want:
+            # last confirmation before a hang is reported: the 500 ms watchdog counts wall-clock time, and other processes can
+            # keep the machine busy even while this harness pauses its own runs; a genuine hang times out every time
+            for _ in range(3):
+                time.sleep(1.0)
+                rc, so, se = common.run_ti(ctx.ti, [name] + fl, wd)
+                c = blackbox.classify(rc, so, se, name)
+                if c not in ("hang", "hard-timeout"):
+                    stats["spurious-timeouts-cleared"] += 1
+                    break
+        if c == "panic" and "panic" in want and res is None:
             fn, msg, loc = blackbox.panic_site(se)
             res = ("panic", fn + " | " + msg, loc, se[-1500:])
         elif c in ("hang", "hard-timeout") and "hang" in want:
